@@ -721,3 +721,23 @@ Definition C09_example_statement : Prop :=
 
 Lemma c09_example : C09_example_statement.
 Proof. vm_compute. repeat split; reflexivity. Qed.
+
+(* ---------------------------------------------------------------- reopen (C11, storage layer) *)
+Fixpoint run_with_reopens (ops : list (bool * op)) (s : store) : store * list res :=
+  match ops with
+  | [] => (s, [])
+  | (b, o) :: rest =>
+      let s0 := if b then reopen s else s in
+      let '(s1, r) := step s0 o in
+      let '(s2, rs) := run_with_reopens rest s1 in (s2, r :: rs)
+  end.
+Fixpoint run_plain (ops : list op) (s : store) : store * list res :=
+  match ops with
+  | [] => (s, [])
+  | o :: rest => let '(s1, r) := step s o in let '(s2, rs) := run_plain rest s1 in (s2, r :: rs)
+  end.
+Lemma reopens_invisible : forall ops s, run_with_reopens ops s = run_plain (map snd ops) s.
+Proof.
+  induction ops as [|[b o] rest IH]; intros s; cbn [run_with_reopens run_plain map snd]; [reflexivity|].
+  destruct b; unfold reopen; destruct (step s o) as [s1 r]; rewrite IH; reflexivity.
+Qed.
